@@ -223,10 +223,10 @@ class Transform(object):
             with infinite bounds
 
         """
-        pmins = self.params.mins
+        pmins = self.params.mins.copy()
         pmins[np.isinf(pmins)] = minval
 
-        pmaxs = self.params.maxs
+        pmaxs = self.params.maxs.copy()
         pmaxs[np.isinf(pmaxs)] = maxval
 
         return sutils.lhs(nsamples, pmins, pmaxs)
